@@ -35,9 +35,15 @@ package exchange
 //@   requires c != nil && ctx != nil && c.next != nil && !closed(c.buffer) && c.buffer != nil
 //@   ghostvar nerr int = 0
 //@   at line "c.buffer <- maybeStepVector{err: fmt.Errorf(" set nerr = nerr + 1
+// Every batch and every error pulled from the child is handed on through the buffer (C15: an error must not
+// be dropped, e.g. because the buffer is full), and so is the error of a cancelled context.
+//@   ghostvar nhand int = 0
+//@   after model.VectorOperator.Next set nhand = nhand + ite($err != nil || !isnil($r), 1, 0)
+//@   at line "c.buffer <- maybeStepVector{err: ctx.Err()}" set nhand = nhand + 1
+//@   ensures[C15,C18] everything-pulled-is-handed-on: sent(c.buffer) == old(sent(c.buffer)) + nhand + ite(RECOVERED, 1, 0)
 //@   ensures[C13] buffer-closed-at-the-end: closed(c.buffer)
 //@   ensures[C13,C15] a-panic-below-is-delivered-as-an-error: RECOVERED ==> nerr == 1
-//@   loop 0 invariant c != nil && ctx != nil && c.next != nil && !closed(c.buffer) && c.buffer != nil && nerr == 0
+//@   loop 0 invariant c != nil && ctx != nil && c.next != nil && !closed(c.buffer) && c.buffer != nil && nerr == 0 && sent(c.buffer) == old(sent(c.buffer)) + nhand
 
 // The series loader goroutine of the coalesce operator: a panic of the child's Series (storage
 // callbacks run here) never escapes, and every recovered panic - whatever its value - is reported
